@@ -385,6 +385,7 @@ class ClusterGraph(UndirectedGraph):
         [('a', 'b'), ('b', 'c')]
         """
         copy = ClusterGraph(self.edges())
+        copy.add_nodes_from(self.nodes())
         if self.factors:
             factors_copy = [factor.copy() for factor in self.factors]
             copy.add_factors(*factors_copy)
